@@ -426,6 +426,91 @@ fn read_phase(cfg: &Cfg, gt: &[Gt]) -> Vec<(String, String)> {
     v
 }
 
+/// A FAT12/16 volume whose fixed root is NOT a whole number of sectors (legal: the count is any 16-bit value) and is
+/// completely full (no end marker inside it); the slack of the last root sector holds stale, directory-like bytes.
+/// Returns (name, image, ground truth, free clusters, byte range of the slack).
+pub fn build_odd_root(width: u8, bps: u32) -> (String, Vec<u8>, Vec<Gt>, Vec<u32>, (u64, u64)) {
+    let mut ms = MkSpec::new(width);
+    ms.bps = bps;
+    ms.spc = 1;
+    let per = bps / 32;
+    ms.root_entries = per + per / 2;
+    if width == 12 {
+        ms.clusters = 120;
+    }
+    ms.reserved = 2;
+    let n = ms.root_entries as usize;
+    let mut b = Builder::new(ms);
+    let cs = b.geo.cluster_size() as usize;
+    let mut gt: Vec<Gt> = Vec::new();
+    let mut root: Vec<[u8; 32]> = Vec::new();
+    root.push(builder::sfn_slot(b"VOL LABEL  ", 0x08, 0, normal_times(9), 0, 0));
+    let c_a = pattern(5, cs + 3);
+    let c_b = pattern(6, 7);
+    for i in 1..n {
+        let sfn: [u8; 11] = format!("F{:03}    DAT", i).as_bytes().try_into().unwrap();
+        let (fc, size, content) = match i {
+            1 => (2u32, c_a.len() as u32, c_a.clone()),
+            x if x == n - 1 => (4u32, c_b.len() as u32, c_b.clone()),
+            _ => (0, 0, vec![]),
+        };
+        let t = normal_times(i as u16 % 60);
+        root.push(builder::sfn_slot(&sfn, 0x20, 0, t, fc, size));
+        gt.push(Gt { path: format!("/F{:03}.DAT", i), is_dir: false, attr: 0x20, size, content, short: format!("F{:03}.DAT", i), units: None, t });
+    }
+    b.write_file(&[2, 3], &c_a);
+    b.write_file(&[4], &c_b);
+    b.write_dir(&[], &root);
+    let keep: Vec<u32> = (5..9).collect();
+    b.ballast(&keep);
+    let g = b.geo.clone();
+    let mut img = b.finish();
+    let slack = (g.root_off() + g.root_bytes(), g.data_off());
+    let mut k = 0u8;
+    let mut off = slack.0;
+    while off + 32 <= slack.1 {
+        let sfn: [u8; 11] = format!("GHOST{:03}TMP", k).as_bytes().try_into().unwrap();
+        let s = builder::sfn_slot(&sfn, 0x20, 0, normal_times(1), 0, 0);
+        img[off as usize..off as usize + 32].copy_from_slice(&s);
+        off += 32;
+        k = k.wrapping_add(1);
+    }
+    (format!("fat{width}-{bps}x1-odd-full-root-{n}"), img, gt, keep, slack)
+}
+
+/// the full odd-sized root: nothing of the slack is an entry, a creation has no slot to go to, the slack stays as it was
+fn full_root_phase(cfg: &Cfg, slack: (u64, u64)) -> Vec<(String, String)> {
+    let (st, _d) = new_dev(&cfg.base);
+    let before = st.borrow().read_vec(slack.0, (slack.1 - slack.0) as usize);
+    let ctr = Rc::new(Cell::new(0u32));
+    let r = sess::guarded(|| -> Result<(), (String, String)> {
+        let fs = sess::mount(MemDev::new(st.clone()), cfg, &ctr).map_err(|e| ("C08/full-root/mount-failed".to_string(), format!("{:?}", sess::ek(e))))?;
+        let root = fs.root_dir();
+        for ghost in ["GHOST000.TMP", "GHOST003.TMP"] {
+            if root.open_file(ghost).is_ok() {
+                return Err(("C08/full-root/slack-bytes-opened-as-a-file".into(), format!("{ghost}: stale bytes behind the last root entry (same sector) are found as a file")));
+            }
+        }
+        if root.create_file("NEWFILE.TXT").is_ok() {
+            return Err(("C08/full-root/creation-in-a-full-root-succeeds".into(), "every slot of the fixed root is in use, yet create_file succeeded".into()));
+        }
+        drop(root);
+        fs.unmount().map_err(|e| ("C08/full-root/unmount-failed".to_string(), format!("{:?}", sess::ek(e))))?;
+        Ok(())
+    });
+    let mut v = Vec::new();
+    match r {
+        Err(p) => v.push((format!("C08/full-root/panic/{}", panic_class(&p)), p)),
+        Ok(Err(x)) => v.push(x),
+        Ok(Ok(())) => {}
+    }
+    let after = st.borrow().read_vec(slack.0, (slack.1 - slack.0) as usize);
+    if before != after {
+        v.push(("C08/full-root/slack-behind-the-root-written".into(), "bytes between the last root entry and the first data sector changed".into()));
+    }
+    v
+}
+
 /// statistics of the foreign volume vs the number of clusters the builder left free (a session of its own: when the
 /// count is unknown or the volume dirty the library may store the count it computed)
 fn stats_phase(cfg: &Cfg, free: u32, clusters: u64, cs: usize) -> Vec<(String, String)> {
@@ -886,8 +971,40 @@ pub fn run(tier: &str) -> i32 {
             out
         })
         .collect();
+    // volumes whose fixed root is not a whole number of sectors and completely full (stale entries in the slack)
+    let mut odd: Vec<(String, String, String)> = Vec::new();
+    let mut odd_names: Vec<String> = Vec::new();
+    for (width, bps) in [(12u8, 512u32), (16, 512), (12, 4096), (16, 1024)] {
+        match sess::guarded(|| build_odd_root(width, bps)) {
+            Err(p) => odd.push(("C08/machinery/builder-panic".to_string(), p, format!("odd-root-{width}-{bps}"))),
+            Ok((name, img, gt, keep, slack)) => {
+                let cfg = Cfg::new(&name, Arc::new(Base::Bytes(img)));
+                let g = decoder::parse_raw(&DevState::new(cfg.base.clone()).read_vec(0, 512)).unwrap();
+                match sess::decode_dev(&DevState::new(cfg.base.clone()), &cfg, &[]) {
+                    Ok(d) => {
+                        let flat = d.flat();
+                        for x in &gt {
+                            match flat.get(&x.path) {
+                                Some(n) if !n.is_dir && n.size == x.size && n.content.as_deref() == Some(&x.content[..]) => {}
+                                other => odd.push(("C08/machinery/decoder-disagrees-with-builder".to_string(), format!("{}: {:?}", x.path, other.map(|n| (n.is_dir, n.size))), name.clone())),
+                            }
+                        }
+                        if flat.len() != gt.len() || !d.findings.is_empty() {
+                            odd.push(("C08/machinery/builder-image-has-findings".to_string(), format!("{} nodes decoded, {} generated, {:?}", flat.len(), gt.len(), d.findings.first()), name.clone()));
+                        }
+                    }
+                    Err(e) => odd.push(("C08/machinery/builder-image-undecodable".to_string(), e, name.clone())),
+                }
+                evals.fetch_add(3, Ordering::Relaxed);
+                for (sig, msg) in read_phase(&cfg, &gt).into_iter().chain(stats_phase(&cfg, keep.len() as u32, g.clusters, g.cluster_size() as usize)).chain(full_root_phase(&cfg, slack)) {
+                    odd.push((sig, msg, name.clone()));
+                }
+                odd_names.push(name);
+            }
+        }
+    }
     let mut all: BTreeMap<String, (String, u64, String)> = BTreeMap::new();
-    for (sig, msg, cfg) in res.into_iter().flatten() {
+    for (sig, msg, cfg) in res.into_iter().flatten().chain(odd) {
         all.entry(sig).or_insert((msg, 0, cfg)).1 += 1;
     }
     let mut rep = Report::new("C08", tier, "model_checking");
@@ -898,7 +1015,8 @@ pub fn run(tier: &str) -> i32 {
     }
     let ncap = capped.load(Ordering::Relaxed);
     rep.coverage = json!({
-        "states": specs.len() as u64 - ncap,
+        "states": specs.len() as u64 - ncap + odd_names.len() as u64,
+        "odd_root_volumes": odd_names,
         "transitions": evals.load(Ordering::Relaxed),
         "traces_validated_against_impl": evals.load(Ordering::Relaxed),
         "samples": specs.iter().take(3).map(Spec::name).collect::<Vec<_>>(),
@@ -907,7 +1025,7 @@ pub fn run(tier: &str) -> i32 {
         "volumes_skipped_by_deadline": ncap,
         "mutations_per_volume": muts.iter().map(|m| m.name).collect::<Vec<_>>(),
         "explanation": "states = foreign volumes in the (tier's) product grid, each an initial state built by the independent builder with its ground truth; transitions = 1 read session + 10 single mutations from every initial state (depth-1 exploration), all executed on the real crate; read: names, short names, UCS-2 units, attributes, raw timestamps, sizes, contents and label vs the builder's ground truth; write: byte-level diff against the pre-image confined to the target's slots / free slots / its FAT entries and clusters / clusters free before / status byte / fs-info, no new structural finding, every other file intact",
-        "grid": "width {12,16,32} x (sector,cluster) {512x1, 512x8, 4096x1, 4096x8 (FAT12); 512x1, 512x8, 4096x1 (FAT16); 512x1 (FAT32)} x FAT copies {1,2,3} x (FAT32: mirrored / mirrored with a stale active-copy number / each active copy, inactive copies scribbled) x FAT32 top nibble {0,0xA} x end-of-chain {lowest,highest} x chain layout {contiguous,reversed,interleaved,through-last-cluster} x FAT32 free count {stored, unknown} x status {clean,dirty}; FAT32 volumes have 66 600 clusters (cluster numbers above 0xFFFF in the through-last-cluster layout), with 3 FAT copies the information / backup sectors sit at 2 / 9, the live label carries attribute 0x28 in the odd layouts; statistics compared with the generator; 13 mutations incl. a new directory, a first write into an empty file and writing until the volume is full; free clusters hold directory-like junk, dirty volumes carry a stale free count, half the FAT32 volumes a next-free hint on the last cluster; quick tier = a quarter of the grid",
+        "grid": "width {12,16,32} x (sector,cluster) {512x1, 512x8, 4096x1, 4096x8 (FAT12); 512x1, 512x8, 4096x1 (FAT16); 512x1 (FAT32)} x FAT copies {1,2,3} x (FAT32: mirrored / mirrored with a stale active-copy number / each active copy, inactive copies scribbled) x FAT32 top nibble {0,0xA} x end-of-chain {lowest,highest} x chain layout {contiguous,reversed,interleaved,through-last-cluster} x FAT32 free count {stored, unknown} x status {clean,dirty}; FAT32 volumes have 66 600 clusters (cluster numbers above 0xFFFF in the through-last-cluster layout), with 3 FAT copies the information / backup sectors sit at 2 / 9, the live label carries attribute 0x28 in the odd layouts; statistics compared with the generator; 13 mutations incl. a new directory, a first write into an empty file and writing until the volume is full; free clusters hold directory-like junk, dirty volumes carry a stale free count, half the FAT32 volumes a next-free hint on the last cluster; quick tier = a quarter of the grid; in addition four FAT12/16 volumes whose fixed root is one and a half sectors long and completely full, with stale directory-like bytes in the slack of its last sector (read session, statistics, lookups of the stale names, a creation that has no slot to go to, slack unchanged)",
         "technique": "exhaustive product grid of builder-made foreign volumes as initial states, depth-1 exploration on the real crate, independent decoder + byte-level diff oracle",
     });
     rep.assumptions = vec!["cluster sizes / copy counts outside the grid are not covered; FAT32 with large clusters is left out because the builder keeps flat images in memory".into()];
